@@ -514,6 +514,66 @@ mut('C18', 'history_rename_removes_the_old_files', JD, """		if err := os.Rename(
 			_ = os.Remove(m)
 		}""")
 
+# ---- C17 authentication middleware
+MB = 'internal/frontend/middleware/basic_auth.go'
+MT = 'internal/frontend/middleware/token_auth.go'
+MG = 'internal/frontend/middleware/global.go'
+mut('C17', 'token_comparison_dropped', MT, """			if subtle.ConstantTimeCompare([]byte(bearer), []byte(token)) != 1 {
+				tokenAuthFailed(w, realm)
+				return
+			}
+""", """			_ = subtle.ConstantTimeCompare([]byte(bearer), []byte(token))
+""")
+mut('C17', 'bearer_skips_basic_auth_without_a_token_layer', MB, """	return authToken != nil &&
+		len(authHeader) >= 2 &&""", """	return len(authHeader) >= 2 &&""")
+mut('C17', 'unknown_user_or_wrong_password', MB, """			if !credUserOk || subtle.ConstantTimeCompare(""", """			if !credUserOk && subtle.ConstantTimeCompare(""")
+mut('C17', 'token_layer_dropped_when_basic_is_configured', MG, """	if authToken != nil {
+		next = TokenAuth("restricted", authToken.Token)(next)
+	}
+""", """	if authToken != nil && authBasic == nil {
+		next = TokenAuth("restricted", authToken.Token)(next)
+	}
+""")
+mut('C17', 'empty_token_accepted', MT, """			bearer := authHeader[1]
+			if bearer == "" {
+				tokenAuthFailed(w, realm)
+				return
+			}
+""", """			bearer := authHeader[1]
+""")
+mut('C17', 'api_prefix_check_inverted', MG, """				if strings.HasPrefix(r.URL.Path, "/api") {
+					next.ServeHTTP(w, r)
+				} else {
+					defaultHandler.ServeHTTP(w, r)
+				}""", """				if strings.HasPrefix(r.URL.Path, "/api/v1") {
+					next.ServeHTTP(w, r)
+				} else {
+					defaultHandler.ServeHTTP(w, r)
+				}""")
+mut('C17', 'authenticated_marker_set_before_the_check', MB, """			user, pass, ok := r.BasicAuth()
+			if !ok {
+				basicAuthFailed(w, realm)
+				return
+			}
+""", """			user, pass, ok := r.BasicAuth()
+			if !ok {
+				next.ServeHTTP(w, r.WithContext(withAuthenticated(r.Context())))
+				return
+			}
+""")
+mut('C17', 'failed_basic_auth_falls_through', MB, """			if !credUserOk || subtle.ConstantTimeCompare(
+				[]byte(pass),
+				[]byte(credPass),
+			) != 1 {
+				basicAuthFailed(w, realm)
+				return
+			}""", """			if !credUserOk || subtle.ConstantTimeCompare(
+				[]byte(pass),
+				[]byte(credPass),
+			) != 1 {
+				basicAuthFailed(w, realm)
+			}""")
+
 # ---- C09 daemon
 D = 'internal/scheduler/scheduler.go'
 J = 'internal/scheduler/job.go'
